@@ -52,7 +52,9 @@ def run_property(pid, tier='quick', seed=0, repo=None, overrides=None, write=Tru
     if not any(o.status == 'violation' for o in rep.obs):
         # floors guard against vacuous passes; a run that reports violations is not vacuous
         for rule, n in spec.get('floors', {}).items():
-            rep.floor(rule, n)
+            # floors are the instance counts confirmed by hand on the pinned tree; a small slack tolerates
+            # refactorings that merge two instances, while a rule that lost its anchors still fails closed
+            rep.floor(rule, max(1, n - 1 - n // 6))
     known, fixed = load_known()
     viols = [o for o in rep.obs if o.status == 'violation']
     new, kn = [], []
